@@ -15,7 +15,125 @@ fn big() -> Rectangle {
     Rectangle::new(Point::new(-100000, -100000), Size::new(200000, 200000))
 }
 
+/// p_thick_grid tri <w> <align> <kx> <ky> <i>  /  p_thick_grid poly <w> <kx> <ky> <i>
+/// exhaustive stratum: ALL ordered vertex triples of a kx x ky grid whose first vertex has index i (x = i % kx, y = i / kx);
+/// every pixels() item of the stroked triangle / 3-vertex polyline must lie in the styled bounding_box().  Small grids at
+/// width 2..3 are where join corners round to one point (ThickSegment::is_skeleton() for a stroke wider than 1 px) --
+/// about 1 in 10^5 random triangles, so the random strata of p_thick_bbox do not reach them (mutation
+/// closed_thick_segment_iter.rs `ThickSegment::new(end_join, start_join)`: Triangle (2,0),(0,3),(3,8) width 2 Center).
+fn thick_grid(a: &[&str]) -> String {
+    let poly = a[0] == "poly";
+    let w = u(a[1]);
+    let o = if poly { 2 } else { 3 };
+    let (kx, ky, i) = (i(a[o]), i(a[o + 1]), i(a[o + 2]));
+    let p = |n: i32| Point::new(n % kx, n / kx);
+    let b = PrimitiveStyleBuilder::new().stroke_color(Rgb565::GREEN).stroke_width(w);
+    let st = if poly {
+        b.build()
+    } else {
+        b.stroke_alignment(match a[2] {
+            "0" => StrokeAlignment::Inside,
+            "1" => StrokeAlignment::Center,
+            _ => StrokeAlignment::Outside,
+        })
+        .build()
+    };
+    let mut n = 0usize;
+    for j in 0..kx * ky {
+        for k in 0..kx * ky {
+            let v = [p(i), p(j), p(k)];
+            let (bb, bad) = if poly {
+                let s = Polyline::new(&v).into_styled(st);
+                let bb = s.bounding_box();
+                (bb, s.pixels().map(|Pixel(q, _)| q).find(|q| !bb.contains(*q)))
+            } else {
+                let s = Triangle::new(v[0], v[1], v[2]).into_styled(st);
+                let bb = s.bounding_box();
+                (bb, s.pixels().map(|Pixel(q, _)| q).find(|q| !bb.contains(*q)))
+            };
+            if let Some(q) = bad {
+                return format!(
+                    "FAIL {} ({},{}) ({},{}) ({},{}) width {}: pixel ({},{}) is outside the styled bounding box {} {} {} {}",
+                    a[0], v[0].x, v[0].y, v[1].x, v[1].y, v[2].x, v[2].y, w, q.x, q.y, bb.top_left.x, bb.top_left.y, bb.size.width, bb.size.height
+                );
+            }
+            n += 1;
+        }
+    }
+    format!("OK {}", n)
+}
+
+/// p_thick_skel <w> <kx> <ky> <i>: directed stratum for collapsed joins.  For every ordered vertex triple (a, b, c) of the
+/// kx x ky grid with first vertex index i whose join at b has two coincident corners (hook `line_join`; this is what makes
+/// ThickSegment::is_skeleton() true for a stroke wider than 1 px), the polylines [p,a,b,c], [a,b,c,q] and [p,a,b,c,q] for
+/// p, q on a ring around a and c, and the three triangles (a,b,c) x alignment, must draw inside their styled bounding_box().
+/// (Random polylines hit a collapsed interior join next to another interior join about once in 10^6 cases.)
+fn thick_skel(a: &[&str]) -> String {
+    let w = u(a[0]);
+    let (kx, ky, i0) = (i(a[1]), i(a[2]), i(a[3]));
+    let p = |n: i32| Point::new(n % kx, n / kx);
+    // neighbours at several distances and all angles (a sharp reversal next to the collapsed join makes a bevel whose outer
+    // corner is an extreme point of the box)
+    const D: [i32; 7] = [-14, -7, -3, 0, 3, 7, 14];
+    let ring: Vec<(i32, i32)> = D.iter().flat_map(|x| D.iter().map(move |y| (*x, *y))).filter(|o| *o != (0, 0)).collect();
+    let ring2 = [(3, 0), (0, 7), (-7, -3), (14, -7), (-3, 14), (-14, 3)];
+    let st = PrimitiveStyle::with_stroke(Rgb565::GREEN, w);
+    let check = |v: &[Point]| -> Option<String> {
+        let s = Polyline::new(v).into_styled(st);
+        let bb = s.bounding_box();
+        s.pixels().map(|Pixel(q, _)| q).find(|q| !bb.contains(*q)).map(|q| {
+            format!(
+                "FAIL poly {} width {}: pixel ({},{}) is outside the styled bounding box {} {} {} {}",
+                v.iter().map(|p| format!("({},{})", p.x, p.y)).collect::<Vec<_>>().join(" "),
+                w, q.x, q.y, bb.top_left.x, bb.top_left.y, bb.size.width, bb.size.height
+            )
+        })
+    };
+    let (mut joins, mut n) = (0usize, 0usize);
+    for j in 0..kx * ky {
+        for k in 0..kx * ky {
+            let (va, vb, vc) = (p(i0), p(j), p(k));
+            let (_, _, c) = vh::line_join(2, va, vb, vc, w, 0);
+            if !(c[0] == c[1] || c[2] == c[3]) {
+                continue;
+            }
+            joins += 1;
+            for (dx, dy) in ring.iter().copied() {
+                let (pp, qq) = (va + Point::new(dx, dy), vc + Point::new(dx, dy));
+                for v in [&[pp, va, vb, vc][..], &[va, vb, vc, qq][..]] {
+                    n += 1;
+                    if let Some(f) = check(v) {
+                        return f;
+                    }
+                }
+                for (ex, ey) in ring2 {
+                    n += 1;
+                    if let Some(f) = check(&[pp, va, vb, vc, vc + Point::new(ex, ey)]) {
+                        return f;
+                    }
+                }
+            }
+            for al in [StrokeAlignment::Inside, StrokeAlignment::Center, StrokeAlignment::Outside] {
+                let s = Triangle::new(va, vb, vc)
+                    .into_styled(PrimitiveStyleBuilder::new().stroke_color(Rgb565::GREEN).stroke_width(w).stroke_alignment(al).build());
+                let bb = s.bounding_box();
+                n += 1;
+                if let Some(q) = s.pixels().map(|Pixel(q, _)| q).find(|q| !bb.contains(*q)) {
+                    return format!("FAIL tri ({},{}) ({},{}) ({},{}) width {} {:?}: pixel ({},{}) is outside the styled bounding box", va.x, va.y, vb.x, vb.y, vc.x, vc.y, w, al, q.x, q.y);
+                }
+            }
+        }
+    }
+    format!("OK {} collapsed joins, {} shapes", joins, n)
+}
+
 pub fn run(suite: &str, a: &[&str]) -> Option<String> {
+    if suite == "p_thick_grid" {
+        return Some(thick_grid(a));
+    }
+    if suite == "p_thick_skel" {
+        return Some(thick_skel(a));
+    }
     if suite != "p_thick_bbox" {
         return None;
     }
